@@ -5,7 +5,9 @@ use probminhash::exp01::ExpRestricted01;
 use rand::distr::Distribution;
 
 pub fn corr(ctx: &mut Ctx) {
-    let mut lambdas: Vec<f64> = vec![1e-9, 1e-6, 0.5, std::f64::consts::LN_2, 1.0, 5.0, 30.0];
+    // "every rate lambda > 0": down to rates at which exp(-lambda) rounds to 1 (lambda <= 2^-54) and the subnormal range, up to
+    // rates whose exp(lambda) is near the top of the double range
+    let mut lambdas: Vec<f64> = vec![1e-300, 1e-100, 1e-17, 5.5e-17, 1.5e-16, 3e-16, 1e-15, 1e-12, 1e-9, 1e-6, 0.5, std::f64::consts::LN_2, 1.0, 5.0, 30.0, 100.0, 700.0];
     let mut m = 2.0f64;
     while m < 2e6 {
         lambdas.push((m / (m - 1.0)).ln());
@@ -56,7 +58,8 @@ pub fn corr(ctx: &mut Ctx) {
             let ws: Vec<String> = words.iter().map(|w| hx(*w)).collect();
             match r {
                 Ok(x) => {
-                    ctx.line(&format!("rnd exp01s {} {}", fhx(*lam), ws.join(" ")), &format!("{} {}", fhx(x), rng.pos));
+                    ctx.line(&format!("rnd exp01s {} {}", fhx(*lam), ws.join(" ")), &format!("{} {}", fhx(x), rng.pos));       // definition generated from the source
+                    ctx.line(&format!("rnd exp01sh {} {}", fhx(*lam), ws.join(" ")), &format!("{} {}", fhx(x), rng.pos));      // hand-written transcription
                     ctx.count(&format!("words_consumed={}", rng.pos.min(6)));
                     if !(x >= 0.0 && x < 1.0) {
                         ctx.oracle_failure(serde_json::json!({"kind":"impl_violates_property","what":"sample outside [0,1)","lambda":lam,"x":x,"words":ws}));
@@ -74,10 +77,11 @@ pub fn corr(ctx: &mut Ctx) {
         use rand::SeedableRng;
         let v: Vec<f64> = (0..16).map(|_| e.sample(&mut rng)).collect();
         ctx.line(&format!("rnd exp01 {} {} 16", fhx(*lam), hx(7)), &join_fhx(&v));
+        ctx.line(&format!("rnd exp01h {} {} 16", fhx(*lam), hx(7)), &join_fhx(&v));
     }
     // distribution check (implementation only): Kolmogorov–Smirnov against the target CDF
     let n = ctx.n(200_000, 2_000_000) as usize;
-    for lam in [1e-6f64, std::f64::consts::LN_2, 1.0, 5.0, 30.0, (1e6f64 / (1e6 - 1.0)).ln()] {
+    for lam in [1e-200f64, 1e-17, 1.5e-16, 3e-16, 1e-12, 1e-6, std::f64::consts::LN_2, 1.0, 5.0, 30.0, 100.0, (1e6f64 / (1e6 - 1.0)).ln()] {
         use rand::SeedableRng;
         let e = ExpRestricted01::new(lam);
         let mut rng = rand_xoshiro::Xoshiro256PlusPlus::seed_from_u64(ctx.rng.next());
